@@ -4,6 +4,7 @@
   candidates are inputs of the model; the theorems hold for every order / candidate list.
 -/
 import VerdeModel.Lemmas.CV
+import VerdeModel.Lemmas.Balance
 namespace Verde.C11
 open Verde
 
@@ -116,6 +117,30 @@ theorem partition_by_sum_spec (sizes : List Nat) (parts : Nat) (idx : List Nat)
     have := countLe_le_length (cumsum sizes) ((k + 1) * ((cumsum sizes).getLastD 0 / parts))
     rw [cumsum_length] at this
     exact this
+
+/-- **Balance bound.**  In the balanced path, consecutive split points `i ≤ i'` found for the targets `(k−1)·ideal` and
+    `k·ideal` (neither at the very end) delimit a fold whose point count is within one block population `M` of `ideal`:
+    `ideal − M < fold < ideal + M`  (stated additively over ℕ). -/
+theorem balance_bound (sizes : List Nat) (M ideal k : Nat) (hM : ∀ s ∈ sizes, s ≤ M)
+    (hi : countLe (cumsum sizes) (k * ideal) < sizes.length) (hi' : countLe (cumsum sizes) ((k + 1) * ideal) < sizes.length) :
+    let lo := prefixSum sizes (countLe (cumsum sizes) (k * ideal))
+    let hi := prefixSum sizes (countLe (cumsum sizes) ((k + 1) * ideal))
+    lo ≤ hi ∧ hi - lo < ideal + M ∧ ideal < (hi - lo) + M := by
+  intro lo hi2
+  obtain ⟨a1, a2⟩ := split_point_bound sizes M (k * ideal) hM
+  obtain ⟨b1, b2⟩ := split_point_bound sizes M ((k + 1) * ideal) hM
+  have a2' := a2 hi
+  have b2' := b2 hi'
+  have hmono : lo ≤ hi2 := prefixSum_mono sizes _ _ (countLe_mono _ _ _ (Nat.mul_le_mul_right _ (by omega)))
+  have e : (k + 1) * ideal = k * ideal + ideal := by ring
+  simp only [lo, hi2] at *
+  refine ⟨hmono, ?_, ?_⟩ <;> omega
+
+/-- The first fold (from the start to the first split point) obeys the same bound. -/
+theorem balance_bound_first (sizes : List Nat) (M ideal : Nat) (hM : ∀ s ∈ sizes, s ≤ M)
+    (hi : countLe (cumsum sizes) ideal < sizes.length) :
+    prefixSum sizes (countLe (cumsum sizes) ideal) ≤ ideal ∧ ideal < prefixSum sizes (countLe (cumsum sizes) ideal) + M :=
+  ⟨(split_point_bound sizes M ideal hM).1, (split_point_bound sizes M ideal hM).2 hi⟩
 
 /-- Fallback / unbalanced folds (scikit-learn KFold over blocks): `k` folds whose block counts differ by at most one
     and add up to the number of blocks. -/
